@@ -184,10 +184,7 @@ def judge(ctx, spec, res, explain=True):
                 break
     if v is None:
         return None
-    v['detail'] = '%s: %s expected %s observed %s' % (
-        v['kind'], v['call_repr'],
-        canon.show(v['expected'][1]) if v['expected'][0] == 'ok' else v['expected'],
-        canon.show(v['observed'][1]) if v['observed'][0] == 'ok' else v['observed'])
+    v['detail'] = '%s: %s: %s' % (v['kind'], call_repr(spec['threads'][v['thread']][v['call']], 90), canon.diff_text(v['expected'], v['observed']))
     if explain:
         order = _explainable(ctx, spec, res)
         if order is not None:
